@@ -108,6 +108,15 @@ func RunPipeline(seed int64, tier, driver, outDir string, n int, search bool, co
 	res.CorpusCases = len(cases)
 	cases = append(cases, fixed...)
 	if len(fixed) == 0 {
+		// an allowlist that is not a prefix of the source's states, every combination of shallow clocks
+		// and schema
+		for i, sh := range []bool{true, true, false, false} {
+			cases = append(cases, Case{Seed: int64(30 + i), Tag: "tail-allowlist", Shallow: sh, NoSchema: i%2 == 0, Allowed: true, Tail: true,
+				Ops: []string{"loc:add:c", "wait", "loc:add:d", "wait", "loc:rem:c", "wait", "loc:add:c", "loc:add:c", "wait"}})
+		}
+		// the connection drops again and again, each time after a reconnect that succeeded (more often
+		// than the client's retry budget for one outage)
+		cases = append(cases, Case{Seed: 34, Tag: "many-cuts", Ops: []string{"loc:add:a", "wait", "cut:+b", "wait", "cut:+c", "wait", "cut:-b", "wait", "cut:+c", "wait", "cut:+b", "wait", "cut:+c", "wait"}})
 		// the window of the property: the reply to a client mutation is computed, the source moves on and
 		// pushes, the push reaches the client first
 		cases = append(cases, Case{Seed: 11, Tag: "window", Ops: []string{"hold", "cli:add:a", "loc:add:b", "wait", "release", "wait"}})
